@@ -111,8 +111,24 @@ Fixpoint run_from (cfg : list Z) (st : slots) (ops : list zop) : list (list Z) :
   | o :: r => let '(st', ob) := step cfg st o in ob :: run_from cfg st' r
   end.
 
+(* ops 12 / 13 / 14 = update / estimate / bounds of an item that is not an i64 (string, tuple, u128,
+   byte slice: std's Hash impl makes several writes or one long write).  Their arguments are
+   slot :: id :: [weight ::] buckets (num_hashes of them) :: kind :: payload; only the crate looks at
+   the payload, the model and the oracles see the item's id and its reference buckets, i.e. the
+   ops 1 / 2 / 11. *)
+Definition norm_op (cfg : list Z) (o : zop) : zop :=
+  let nh := Z.to_nat (nth 1 cfg 0) in
+  let '(code, a) := o in
+  match code with
+  | 12 => (1, firstn (3 + nh) a)
+  | 13 => (2, firstn (2 + nh) a)
+  | 14 => (11, firstn (2 + nh) a)
+  | _ => o
+  end.
+Definition norm_case (c : case) : case := mkCase (c_cfg c) (map (norm_op (c_cfg c)) (c_ops c)) (c_obs c).
+
 Definition run (cfg : list Z) (ops : list zop) : list (list Z) :=
-  run_from cfg (repeat None 8) ops.
+  run_from cfg (repeat None 8) (map (norm_op cfg) ops).
 
 (* ---------- property oracle (the Spec, not the model) ----------
    Tracks, per slot, the exact (scaled) truth of every item as an association list and
@@ -164,7 +180,7 @@ Fixpoint prop_from (cfg : list Z) (st : ospec) (ops : list zop) (obs : list (lis
   end.
 
 Definition prop_ok (c : case) : bool :=
-  prop_from (c_cfg c) (repeat ([], 0%N) 8) (c_ops c) (c_obs c).
+  prop_from (c_cfg c) (repeat ([], 0%N) 8) (map (norm_op (c_cfg c)) (c_ops c)) (c_obs c).
 
 (* ---------- C11: deserialize(serialize(s)) behaves exactly as s (twin oracle) ---------- *)
 Definition prop_roundtrip : case -> bool := twin_oracle 10 [0; 9].
@@ -252,10 +268,10 @@ Fixpoint layout_from (strict : bool) (cfg : list Z) (st : list (option spec_stat
   | _, _ => true
   end.
 Definition prop_layout (c : case) : bool :=
-  layout_from false (c_cfg c) (repeat None 8) (c_ops c) (c_obs c).
+  layout_from false (c_cfg c) (repeat None 8) (map (norm_op (c_cfg c)) (c_ops c)) (c_obs c).
 (* C13: every image valid under the format is read back to the state it encodes *)
 Definition prop_foreign (c : case) : bool :=
-  layout_from true (c_cfg c) (repeat None 8) (c_ops c) (c_obs c).
+  layout_from true (c_cfg c) (repeat None 8) (map (norm_op (c_cfg c)) (c_ops c)) (c_obs c).
 
 Definition no_panic : case -> bool := no_panic_oracle.
 
